@@ -529,10 +529,15 @@ Definition f_parent :=
                 (handlers [(HNSP, Skip)]) Skip;
             Ret ]) ]).
 (* parents(): parent(), then parent() of the parent -- which is init, the lowest pid: only its
-   _raise_if_pid_reused() touches the OS *)
+   _raise_if_pid_reused() touches the OS; since commit 671469c `try: proc = proc.parent() except NoSuchProcess: break`:
+   an ancestor that vanished (or whose probe makes it look reused) ends the chain *)
 Definition f_parents :=
   Call (seqs [ SetFlag F_HASPARENT false; f_parent;
-               If (TFlag F_HASPARENT) (raise_if_pid_reused_of NOW Other FStatE F_PGONE F_PREUSED (Some F_PNOIDENT) Ret) Skip; Ret ]).
+               If (TFlag F_HASPARENT)
+                  (Try (raise_if_pid_reused_of NOW Other FStatE F_PGONE F_PREUSED (Some F_PNOIDENT) Ret)
+                       (handlers [(HNSP, Skip)]) Skip)
+                  Skip;
+               Ret ]).
 (* children(recursive=False): _raise_if_pid_reused(); ppid_map(); for each child: Process(child), create times *)
 (* ppid_map(): a pid whose stat cannot be read (gone, or refused since commit 1c63e73) is left out *)
 Definition ppid_map_with (hs : list (hpat * prog)) :=
